@@ -596,15 +596,15 @@ class LockCheck:
         ord_name = "OrdObs" if observed else "OrdCode"
         cfg = self.write_cfg(chk, name, n, progs, budgets, ord_name)
         module, cwd = ("%s_Obs.tla" % self.prefix, chk.work) if observed else ("%s_MC.tla" % self.prefix, core.SPECS)
+        jopts = "-XX:ParallelGCThreads=4"
+        if soft_timeout:
+            # TLC stops by itself after the cap and still reports its statistics ("N states left on queue")
+            jopts += " -Dtlc2.TLC.stopAfter=%d" % soft_timeout
         try:
-            res = core.run_tlc(module, cfg, cwd=cwd, workers=workers, timeout=soft_timeout or timeout, xmx="12g",
-                               env={"JAVA_TOOL_OPTIONS": "-XX:ParallelGCThreads=4"})
+            res = core.run_tlc(module, cfg, cwd=cwd, workers=workers, timeout=(soft_timeout + 600) if soft_timeout else timeout, xmx="12g",
+                               env={"JAVA_TOOL_OPTIONS": jopts})
         except core.ToolError as e:
-            if "timed out" in str(e) and (soft_timeout or not must):
-                core.log("TLC %s %s: not completed within %ds (reported as bounded by time)" % (self.prefix, name, soft_timeout or timeout))
-                chk.extra.setdefault("model_configs", []).append({
-                    "config": name, "threads": n, "programs": self.PROGS.get(progs, progs), "budgets": dict(zip(self.budget_names, budgets)),
-                    "completed": False, "time_cap_s": soft_timeout or timeout, "orderings": ord_name})
+            if "timed out" in str(e) and not must:
                 return None
             raise
         if must:
@@ -613,6 +613,14 @@ class LockCheck:
         core.log("TLC %s %s: %d generated, %d distinct, %.1fs, %s" % (self.prefix, name, res.generated, res.distinct, res.wall,
                                                                       "ok" if res.ok else "FAILED " + ",".join(res.invariant_violated)))
         self.record_config(chk, name, n, progs, budgets, res, ord_name)
+        m = None
+        for m in re.finditer(r"(\d+) states left on queue", res.out):
+            pass
+        left = int(m.group(1)) if m else 0
+        chk.extra["model_configs"][-1]["states_left_on_queue"] = left
+        if left:
+            chk.extra["model_configs"][-1]["completed"] = False
+            chk.extra["model_configs"][-1]["note"] = "bounded by time (%ds): no violation among the states explored, NOT exhaustive" % (soft_timeout or 0)
         return res
 
     def explore(self, chk, bindir, spec, tag):
@@ -752,7 +760,7 @@ class LockCheck:
             gname = spec.pop("graph", None)
             if gname:
                 spec["snap"] = True
-            spec.setdefault("max_secs", 7 if tier == "quick" else 150)
+            spec.setdefault("max_secs", 7 if tier == "quick" else 45)
             runs, info = self.explore(chk, bindir, spec, tag)
             explored.append({"tag": tag, "progs": spec["progs"], "preemption_bound": spec.get("preempt"), "runs": len(runs),
                              "complete_within_bound": info.get("complete"),
